@@ -138,6 +138,13 @@ var properties = map[string]Prop{
 		Rule:        "two real Systems on the in-memory network, sender A -> receiver B, retry limit in {0,1,3}: the first connection is cut after byte j of its client->server stream for every j in 0..280 (handshake + three frames; quick: every j for limit 1, every third j otherwise), two-fault runs cutting the first and the second connection on a grid of offsets, the first k in 1..5 dials refused, the peer stopped and restarted (with and without a send while it is down), and a raw client injecting between two valid frames an undecodable body / an over-limit length followed by a forged frame / an unknown message name / a corrupted envelope; each scenario explored over schedules up to the deviation bound; a case is one (fault, position, retry limit) scenario, non-trivial when a fault actually fired",
 		Assumptions: append([]string{"the network is the in-memory vnet shim: a cut makes the write that crosses the offset fail after delivering the prefix", coarseAssumption}, schedAssumptions...),
 	},
+	"C15": {
+		Parts:       []Part{{Harness: "c15"}},
+		Level:       "model_checking",
+		QuickBudget: 250, ThoroughBudget: 2400,
+		Rule:        "12 operations taking an ActorRef {Tell, Ask+Reply, Kill, poison Kill, Watch then target dies, Watch+Unwatch then target dies, Ping, PipeTo success, PipeTo failure (timeout), PipeTo with a forwarder on the other system, Scheduler.Once, Scheduler.Loop} x target {local, on another System over the in-memory network} x {user Codec with a message type outside the registry, no codec with a registered type}; each of the 48 scenarios over all schedules up to the delay bound with switch points at messages, sends and network operations; oracle: the same expected observable effect for the local and the remote variant (delivery, reply, termination + OnKill.Killer, OnKilled naming the target with its address, Pong, PipeResult at the forwarder, scheduled deliveries) and no decode/send failure event; distinct_nontrivial = distinct effect vectors per scenario",
+		Assumptions: append([]string{"event-stream subscriptions are local by design and not part of the matrix", coarseAssumption}, schedAssumptions...),
+	},
 	"C05": {
 		Parts:       []Part{{Harness: "c05"}},
 		Level:       "model_checking",
